@@ -9,7 +9,8 @@
      1404 go-deadlock reported a potential deadlock (runs with detection enabled)
      1405 a goroutine panicked or the run died with a fatal runtime error
      1406 the Go race detector reported a data race (thorough tier only)
-     1411 application books, 1414 application allocation not on its node   (C03 predicates; calm workloads)
+     1411 application books, 1412 queue books, 1413 node allocation not owned / root vs nodes / leak after drain,
+     1414 application allocation not on its node   (C03 predicates; which are strict depends on the workload class)
      1450 (known finding C14-alloc-leak-app-removed) a node lists an allocation whose own node id is still unset
           and that no live application lists; the final-state predicates are then judged without these allocations
      1451 (known finding C14-concurrent-ledger-drift) queue ledger / node allocation list / root-vs-nodes / drained
@@ -27,7 +28,10 @@ Record conc_case := mkConc {
   cc_singles : list role;      (* roles that are ONE goroutine in the service (scheduling loop, the three event handlers) *)
   cc_rank : list (lock * nat); (* rank certificate from the harness (levels of the condensation), used when cyclic *)
   cc_gocycle : list lock;      (* the offending cycle found by the harness, [] = none *)
-  cc_calm : bool;              (* input fact: calm workload (no application / node removal, reload, timers, cleaning, gang, updates) *)
+  cc_class : N;                (* input fact: workload class, 0 full, 1 calm, 2 ledger (harness/conc_emit.go) *)
+  cc_trigger : bool;           (* input fact: the workload contains an operation of the kinds behind the recorded drift
+                                  findings (full: application / node removal, reload, cleaning, timer, resource update;
+                                  calm: a release not sent in answer to an allocation event) *)
   cc_observed : bool;          (* the final state could be observed (false: goroutines stayed blocked / run died) *)
   cc_final : ostate;
   cc_blocked : N;              (* driver goroutines still running at the watchdog deadline *)
@@ -83,23 +87,41 @@ Definition drift (s : ostate) : bool :=
   negb (forallb (fun n => forallb (node_alloc_owned s) (on_allocs n)) (s_nodes s)) ||
   negb (root_matches_nodes s) || negb (drained_ok s).
 
-(* Final-state judgement.
-   1450 known finding C14-alloc-leak-app-removed (signature: allocation with unset node id listed on one side only).
-   1451 known finding C14-concurrent-ledger-drift: on the unchanged tree operations racing with the scheduling loop
-   leave queue ledgers and node allocation lists in disagreement with the live applications in a few percent of the
-   runs (drift); in FULL workloads (application / node removal, reload, timers, queue cleaning, gang scheduling,
-   resource updates of existing allocations) node ledgers and application books are hit as well, so every
-   disagreement there is classified 1451.
-   CALM workloads (none of these operations) are judged strictly on 1402 node ledgers (unbound orphans taken off the
-   books), 1411 application books, 1414 application allocation with a node id missing on that node. *)
-Definition final_state_check (calm : bool) (s : ostate) : list N :=
-  let strict :=
-    (if nodes_ledger_ok (strip_state s) then [] else [1402]) ++
-    (if forallb app_books_ok (s_apps s) then [] else [1411]) ++
-    (if forallb (fun a => forallb (fun x => app_unbound s x || app_alloc_on_node s x) (ap_allocs a)) (s_apps s) then [] else [1414]) in
+(* Final-state judgement.  Strict kinds:
+     1402 node ledgers (unbound orphans taken off the books)      1411 application books
+     1412 queue books: leaf = sum over its applications, parent = sum over its children (allocated and pending)
+     1413 node lists an allocation no live application lists, root allocated differs from the sum of the node
+          totals, ledgers not back to zero with no application left
+     1414 application allocation with a node id missing on that node
+   LEDGER workloads (class 2: concurrent scheduling and RM-side releases / registrations on leaves sharing a parent,
+   releases sent only in answer to an allocation event; nothing removed, reloaded, cleaned, updated, timed out) are
+   judged strictly on all of them: a lost update on any ledger is a violation.
+   Known windows (narrow on purpose; a plain lost update must not be excused):
+     1450 C14-alloc-leak-app-removed: an allocation with UNSET node id listed on one side only (any class);
+          it excuses 1413 and the queue excess it causes ONLY in runs that have the trigger.
+     1451 C14-concurrent-ledger-drift: ONLY in runs whose workload contains a trigger operation (cc_trigger):
+          calm workloads: excuses 1412 / 1413 (1402, 1411, 1414 stay strict);
+          full workloads: excuses all five kinds.
+   A run without trigger operation is judged strictly whatever its class. *)
+Definition strict_kinds (s : ostate) : list N :=
+  (if nodes_ledger_ok (strip_state s) then [] else [1402]) ++
+  (if forallb app_books_ok (s_apps s) then [] else [1411]) ++
+  (if forallb (queue_books_ok s) (s_queues s) then [] else [1412]) ++
+  (if forallb (fun n => forallb (fun x => unbound_orphan s x || node_alloc_owned s x) (on_allocs n)) (s_nodes s)
+      && (has_unbound s || (root_matches_nodes s && drained_ok s)) then [] else [1413]) ++
+  (if forallb (fun a => forallb (fun x => app_unbound s x || app_alloc_on_node s x) (ap_allocs a)) (s_apps s) then [] else [1414]).
+
+Definition excused (class : N) (k : N) : bool :=
+  if class =? 0 then true
+  else if class =? 1 then (k =? 1412) || (k =? 1413)
+  else false.
+
+Definition final_state_check (class : N) (trigger : bool) (s : ostate) : list N :=
+  let ks := strict_kinds s in
   (if has_unbound s then [1450] else []) ++
-  (if calm then strict ++ (if drift s then [1451] else [])
-   else match strict with [] => (if drift s then [1451] else []) | _ => [1451] end).
+  (if trigger
+   then (if existsb (excused class) ks then [1451] else []) ++ filter (fun k => negb (excused class k)) ks
+   else ks).
 
 Definition cycle_report_ok (c : conc_case) : bool :=
   match cc_gocycle c with
@@ -110,7 +132,7 @@ Definition cycle_report_ok (c : conc_case) : bool :=
 Definition conc_check_case (c : conc_case) : list N :=
   (if lock_order_ok c then [] else [1401]) ++
   (if cycle_report_ok c then [] else [1490]) ++
-  (if cc_observed c then final_state_check (cc_calm c) (cc_final c) else []) ++
+  (if cc_observed c then final_state_check (cc_class c) (cc_trigger c) (cc_final c) else []) ++
   (if 0 <? cc_blocked c then [1403] else []) ++
   (if 0 <? cc_godeadlock c then [1404] else []) ++
   (if 0 <? cc_panics c then [1405] else []) ++
